@@ -233,8 +233,13 @@ def run_check(prop: str, tier: str, seed: int) -> int:
             if hasattr(mod, "oracles"):
                 mod.oracles(ctx)
         if proved and ctx.thorough and os.environ.get("VERIF_COQCHK", "1") != "0":
-            with core.build_lock():
-                ck = core.coqchk(ctx.prop)
+            # coqchk only reads the compiled files; it runs outside the build lock (it takes minutes) and is retried
+            # under the lock if a concurrent build disturbed it
+            ck = core.coqchk(ctx.prop)
+            if not ck["ok"] and ck.get("axioms") is None:
+                with core.build_lock():
+                    core.make([f"Properties/{ctx.prop}.vo"])
+                    ck = core.coqchk(ctx.prop)
             ctx.extra["coqchk"] = {k: v for k, v in ck.items() if k != "tail"}
             if not ck["ok"]:
                 proved = False
